@@ -134,7 +134,7 @@ func c15Targets(p *core.Prog, r *core.Run, pre string) {
 			plain := ip.Op == "index" && ip.Args[0].Op == "field" && ip.Args[0].Name == "Address" && ech.Name == "nil" && alpn.Name == "nil" && port.Op == "field" && port.Name == "Port"
 			none := false
 			for _, f := range fs {
-				if f.Op == "<=" && f.R.Name == "0" && f.L.Op == "call" && f.L.Name == "len" && f.L.Args[0].Op == "new" && strings.HasPrefix(f.L.Args[0].Name, "map[") {
+				if f.Op == "==" && f.R.Name == "0" && f.L.Op == "call" && f.L.Name == "len" && f.L.Args[0].Op == "new" && strings.HasPrefix(f.L.Args[0].Name, "map[") {
 					none = true
 				}
 			}
@@ -195,9 +195,12 @@ func c15Targets(p *core.Prog, r *core.Run, pre string) {
 			if v, ok := recField(f.L, "Priority"); ok && v == rv && f.Op == "!=" && f.R.Name == "0" {
 				notAlias = true
 			}
-			if v, ok := recField(f.L, "Target"); ok && v == rv && f.R != nil && f.R.Name == `""` {
-				hasTarget = f.Op == "!="
-				noTarget = f.Op == "=="
+			// (s == "" / s != "" are normalised to len(s) == 0 / len(s) > 0)
+			if f.L.Op == "call" && f.L.Name == "len" && f.R != nil && f.R.Name == "0" {
+				if v, ok := recField(f.L.Args[0], "Target"); ok && v == rv {
+					hasTarget = hasTarget || f.Op == ">"
+					noTarget = noTarget || f.Op == "=="
+				}
 			}
 			if f.Op == "==" && f.R.Name == "0" && f.L.Op == "call" && f.L.Name == "len" && f.L.Args[0].Op == "field" && f.L.Args[0].Name == "Address" && f.L.Args[0].Args[0].Val == ssa.Value(recv) {
 				noAddr = true
